@@ -34,13 +34,14 @@ def runOp : Op R → M R Unit
   | .nodeResource n fix => nodeResource n fix
 
 /-- state after running `op` from `s` under fault plan `flt` -/
-def after (op : Op R) (flt : Option Addr) (s : State R) : State R := (run (runOp op) flt s).2.st
+def after (op : Op R) (flt : Option Addr) (s : State R) (cancel : Option (Addr × Bool) := none) : State R :=
+  (run (runOp op) flt s cancel).2.st
 
-/-- a history: operations with at most one injected fault each -/
-def runHistory (h : List (Op R × Option Addr)) (s : State R) : State R :=
+/-- a history: operations, each with at most one injected fault and possibly a cancelled caller -/
+def runHistory (h : List (Op R × Option Addr × Option (Addr × Bool))) (s : State R) : State R :=
   match h with
   | [] => s
-  | (op, flt) :: rest => runHistory rest (after op flt s)
+  | (op, flt, cn) :: rest => runHistory rest (after op flt s cn)
 
 /-! ### decidable specification predicates -/
 section Spec
